@@ -27,6 +27,8 @@ var (
 		"-aov", "-ao", "-z", "--zz", "-az", "-o=", "--out=", "-z=v"}
 	tokMid  = []string{"x", "-", "--", "-a", "--aa", "-b", "-ab", "-o", "-ov", "--out=v", "-ao", "-z"}
 	tokTiny = []string{"x", "-", "--", "-a", "-b", "-ab", "-ov", "-z"}
+	// built-in value types: additionally values with surrounding blanks (must be bound byte for byte)
+	tokBuiltin = append(append([]string{}, tokMid...), " x ", "-o v ")
 )
 
 func init() {
@@ -51,7 +53,7 @@ func langTiers(c *Ctx) []langTier {
 			{"tiny-s5-l3", leavesTiny, 5, tokTiny, 3, false},
 			{"opts-s5-l4", leavesOpts, 5, []string{"x", "-a", "-b", "-ab"}, 4, false},
 			{"nest-s6-l3", leavesNest, 6, []string{"x", "-a", "--"}, 3, false},
-			{"builtin-s3-l3", leavesFull, 3, tokMid, 3, true},
+			{"builtin-s3-l3", leavesFull, 3, tokBuiltin, 3, true},
 		}
 	}
 	return []langTier{
@@ -60,7 +62,7 @@ func langTiers(c *Ctx) []langTier {
 		{"mid-s4-l2", leavesMid, 4, tokMid, 2, false},
 		{"nest-s5-l3", leavesNest, 5, []string{"x", "-a", "--"}, 3, false},
 		{"opts-s5-l3", leavesOpts, 5, []string{"x", "-a", "-b"}, 3, false},
-		{"builtin-s2-l3", leavesFull, 2, tokMid, 3, true},
+		{"builtin-s2-l3", leavesFull, 2, tokBuiltin, 3, true},
 	}
 }
 
@@ -109,7 +111,11 @@ func runLangCheck(c *Ctx) {
 				if (n <= 3 || (c.Thorough() && n <= 4 && len(t.leaves) <= 4)) && !t.builtin {
 					alpha := specAlphabet(node, d)
 					if len(alpha) > 0 && len(alpha) <= 4 {
-						for _, argv := range ref.Argvs(alpha, k) {
+						kk := k
+						if len(alpha) <= 2 {
+							kk = k + 3 // long command lines over the spec's own two letters
+						}
+						for _, argv := range ref.Argvs(alpha, kk) {
 							if len(argv) <= t.maxLen || cov.covers(argv) {
 								continue
 							}
